@@ -493,6 +493,25 @@ pub fn run(seed: u64, profile: &ConcProfile, replay: Option<Vec<u16>>) -> RunRep
         let api_done2 = api_done.clone();
         let publisher_done2 = publisher_done.clone();
         let late_pause = Rng::new(seed).fork("late").below(40);
+        // In half of the runs the last request is aimed: it is sent while
+        // the scheduler thread is in the middle of an RRDP update (a
+        // repository file is being written), the instant at which a new
+        // publication can be missed by the running update and by the
+        // bookkeeping of the task queue alike.
+        let aimed = Rng::new(seed).fork("late-aimed").chance(1, 2);
+        let rrdp_writing = Arc::new(AtomicUsize::new(0));
+        if aimed {
+            let flag = rrdp_writing.clone();
+            hooks::state().fs_observer = Some(Arc::new(move |_op, path| {
+                let text = path.to_string_lossy();
+                if text.contains("/rrdp/") && (
+                    text.ends_with("snapshot.xml")
+                    || text.ends_with("delta.xml")
+                ) {
+                    flag.fetch_add(1, Ordering::SeqCst);
+                }
+            }));
+        }
         specs.push(ThreadSpec {
             name: "publisher".into(),
             slow: false,
@@ -509,8 +528,24 @@ pub fn run(seed: u64, profile: &ConcProfile, replay: Option<Vec<u16>>) -> RunRep
                             spins += 1;
                             sched::switch_point("publisher_wait");
                         }
-                        for _ in 0..late_pause {
-                            sched::switch_point("publisher_wait");
+                        if aimed {
+                            // First make sure an update is on its way
+                            // (the second request did that), then wait
+                            // for the next repository file to be written.
+                            let seen = rrdp_writing.load(Ordering::SeqCst);
+                            let mut spins = 0;
+                            while rrdp_writing.load(Ordering::SeqCst) == seen
+                                && spins < 3000
+                            {
+                                spins += 1;
+                                sched::switch_point("publisher_wait");
+                            }
+                            hooks::probe("late_publication_aimed");
+                        }
+                        else {
+                            for _ in 0..late_pause {
+                                sched::switch_point("publisher_wait");
+                            }
                         }
                     }
                     hooks::log(format!("raw publish {k}"));
@@ -587,6 +622,13 @@ pub fn run(seed: u64, profile: &ConcProfile, replay: Option<Vec<u16>>) -> RunRep
     report.stats.insert("sched.switches".into(), sreport.switches);
     report.stats.insert("sched.blocked".into(), sreport.blocked_events);
     report.stats.insert("threads".into(), n_threads as u64);
+    {
+        let mut st = hooks::state();
+        st.fs_observer = None;
+        for (name, n) in st.probes.iter() {
+            report.probes.insert(name.clone(), *n);
+        }
+    }
     report.probes.insert("lock_contention".into(), (sreport.blocked_events > 0) as u64);
     report.probes.insert(
         "reader_behind_writer".into(), sreport.reader_behind_writer
@@ -836,10 +878,22 @@ pub fn run(seed: u64, profile: &ConcProfile, replay: Option<Vec<u16>>) -> RunRep
                     || rule == "rrdp_files_broken"
                 {
                     violations.push(Violation {
-                        prop: "C09".into(), rule,
+                        prop: "C09".into(), rule: rule.clone(),
                         detail: format!(
                             "after the concurrent phase and a full pump: \
                              {detail}"
+                        ),
+                        step: 0,
+                    });
+                    // An accepted publication that is not served once
+                    // background work has caught up is also lost work in
+                    // the sense of C18.
+                    violations.push(Violation {
+                        prop: "C18".into(),
+                        rule: "accepted_publication_not_served".into(),
+                        detail: format!(
+                            "after the concurrent phase and a full pump \
+                             ({rule}): {detail}"
                         ),
                         step: 0,
                     });
